@@ -22,6 +22,7 @@ struct NioCloseSyscall<I: CloseSyscall> {
 impl<I: CloseSyscall> CloseSyscall for NioCloseSyscall<I> {
     extern "C" fn close(&self, fn_ptr: Option<&extern "C" fn(c_int) -> c_int>, fd: c_int) -> c_int {
         _ = EventLoops::del_event(fd);
+        crate::syscall::unix::clean_time_limit(fd);
         self.inner.close(fn_ptr, fd)
     }
 }
